@@ -40,7 +40,9 @@ VW_ORG(21, "ba_rgb123", typename bit_aligned_image3_type<1, 2, 3, rgb_layout_t, 
 VW_ORG(22, "ba_rgb565", typename bit_aligned_image3_type<5, 6, 5, rgb_layout_t, A>::type)
 VW_ORG(23, "ba_rgb444", typename bit_aligned_image3_type<4, 4, 4, rgb_layout_t, A>::type)
 VW_ORG(24, "ba_dev5x8", typename bit_aligned_image5_type<8, 8, 8, 8, 8, devicen_layout_t<5>, A>::type)
-static const int NUM_ORGS = 25;
+VW_ORG(25, "dev5x8_planar", image<pixel<uint8_t, devicen_layout_t<5>>, true, A>)
+VW_ORG(26, "dev2x16_planar", image<pixel<uint16_t, devicen_layout_t<2>>, true, A>)
+static const int NUM_ORGS = 27;
 
 // ---- transformations -------------------------------------------------------------------
 enum op_t { OP_FLIPUD, OP_FLIPLR, OP_TRANSPOSE, OP_ROT90CW, OP_ROT90CCW, OP_ROT180, OP_SUBIMAGE, OP_SS21, OP_SS12, OP_SS23, OP_COUNT };
